@@ -664,7 +664,19 @@ class Verifier(Executor):
             if st.guards:
                 g = b_implies(b_and(*st.guards), g)
             ob.model = self.small_model(st, g)
+        elif self.unroll and ob.status == "unknown" and getattr(self, "entry", None) is not None and self.unknown_models < 3:
+            # nonlinear goals: z3 often cannot decide the unbounded query but finds a model once the inputs are boxed
+            self.unknown_models += 1
+            g = truth(goal)
+            if st.guards:
+                g = b_implies(b_and(*st.guards), g)
+            m = self.small_model(st, g, bounds=(2, 4, 8))
+            if m is not None:
+                ob.status = "failed"
+                ob.model = m
         return ob
+
+    unknown_models = 0
 
     def input_cells(self):
         cells = []
@@ -679,9 +691,9 @@ class Verifier(Executor):
                     cells.append(v)
         return [c for c in cells if z3.is_int(c)]
 
-    def small_model(self, st, goal):
+    def small_model(self, st, goal, bounds=(3, 16, 1000, None)):
         cells = self.input_cells()
-        for bound in (3, 16, 1000, None):
+        for bound in bounds:
             s = z3.Solver()
             s.set("timeout", 10000)
             for f in self.axioms + st.pc:
